@@ -49,4 +49,37 @@ of the two neighbours; in range of the result format. -/
 def c09quot (t : Fmt) (Q : Rat) (c : Int) : Bool :=
   decide (t.lo ≤ c ∧ c ≤ t.hi) && decide ((c:Rat) - 1 < Q ∧ Q < (c:Rat) + 1)
 
+/-! ### C06: closed-form specification of the inferred sizes (independent of the search loops) -/
+
+/-- fraction bits a dyadic rational needs: `log2` of its (power-of-two) denominator. -/
+def needFracOne (v : Rat) : Nat := Nat.log2 v.den
+
+def needFrac : List Rat → Nat
+  | [] => 0
+  | v :: t => max (needFracOne v) (needFrac t)
+
+/-- `k` fits `n` magnitude bits (two's-complement asymmetry: `-2^n` fits, `2^n` does not). -/
+def fitsBits (k : Int) (n : Nat) : Bool := if 0 ≤ k then decide (k < 2 ^ n) else decide (-(2 ^ n : Int) ≤ k)
+
+/-- least `n ≤ fuel` such that every integer fits `n` magnitude bits. -/
+def needBitsFrom (ks : List Int) : Nat → Nat → Nat
+  | 0, n => n
+  | fuel + 1, n => if ks.all (fun k => fitsBits k n) then n else needBitsFrom ks fuel (n + 1)
+
+def needBits (ks : List Int) : Nat := needBitsFrom ks 128 0
+
+def truncR (x : Rat) : Int := if x < 0 then x.ceil else x.floor
+
+/-- the sizes the property prescribes, given what the caller fixed (after `n_int` reconciliation). -/
+def specSizes (signed : Bool) (vals : List Rat) (nword nfrac : Option Int) : Int × Int :=
+  let s : Int := if signed then 1 else 0
+  let F0 : Int := match nfrac with
+    | some f => f
+    | none => (needFrac vals : Nat)
+  let ks := vals.map (fun v => truncR (v * (2 ^ F0.toNat : Nat)))
+  let I : Int := max ((needBits ks : Nat) - F0) 0
+  match nword with
+  | none => let f := min (64 - s - I) F0; (min (f + I + s) 64, f)
+  | some w => (min w 64, min (w - s - I) F0)
+
 end Fxp.Chk
